@@ -173,3 +173,24 @@ more("C17", "Scenarios with claims/headers whose JSON text exceeds 4 KiB and 16 
 more("C18", "The shared keyring holds 12 keys, three of them oct keys under one algorithm of which two are longer than any hash block (129 and 200 octets), plus a 300-octet HS512 key; these are the hot set of the first repeat.")
 more("C19", "Tokens include payloads of 4-70 KiB whose checked claims lie beyond the first 4/64 KiB of the serialised claims (and one with the large member last); the callback operations include replacements that keep the serialised length (exp=1000000000, iss=yo).")
 more("C20", "Key files include an 8200-bit RSA key from data/keys (thorough: 16384 bits): members longer than 1024 octets through key2jwk, jwk2key, jwt-generate and jwt-verify.")
+
+# ---- round 11 (counts, characters, values, positions, repetitions) ----
+more("C02", "Quick keys include secp256k1; 14 more header variants are unregistered names that follow the pattern of the registered ones (HS128, HS0, HS640, RS128, ES512K, none0 ...).")
+more("C03", "14 more header variants: unregistered names that follow the pattern of the registered ones (HS128 maps to 'none' in an implementation that computes the enum from the digits).")
+more("C04", "Clock values include -1 and -2 (time_t -1 is also time()'s error value, still a reading).")
+more("C05", "JSON documents given to the builder rarely carry an escaped U+0000 inside a string; a refused document is not judged, an accepted one must make the round trip.")
+more("C06", "196 further fixed cases: family+number names that are not registered (HS128, RS640, ES256k, EdDSA256, A128KW ...), unsigned for the key-less checkers and correctly signed for the keyed ones.")
+more("C07", "Documents with repeated kids (within one keys array, and equal to the kid of the item the set already holds): still one item per element, in order.")
+more("C08", "A third of the imports put the key second in a set whose first element is a well-formed JWK the crypto library refuses (off-curve point, unknown curve, garbage modulus, short OKP string); every second oct key has a first/last octet that text handling might strip (NUL, LF, CR, blank, '=', quote).")
+more("C09", "oct keys whose last octet is a line feed (octnl:32/48/64/33) and whose first and last octets are zero (octz:32/64).")
+more("C10", "Clock values include -1, -2 and 2^31-1; JSON claim values include reals that need 17 significant digits, integers beyond 2^53 and exponents.")
+more("C11", "Runs of 2..65537 foreign bytes (alone, after alphabet text, and one per line of 64/76 alphabet characters as in MIME-wrapped text; eight foreign characters).")
+more("C12", "Provider names: each exact name decorated with one of 40 characters in front, behind or both (quotes, blanks, separators, brackets), with typical prefixes/suffixes (lib, .so, 3, crypto=), with one character doubled or dropped; 27 more JWT_CRYPTO values of the same kinds in child processes.")
+more("C13", "A fifth of the random history steps run at an unusual clock reading (-1 in half of them, else -2, 0, 1, 2^31-1, 2^31, 2^32-1, 2^32, year 10000), judged against the fresh twin.")
+more("C14", "History steps at unusual clock readings (-1, -2, 0, 2^31 ...) are included.")
+more("C15", "The exhaustive alphabet has three more operations (set aud to a one-element array, typed and JSON reads of aud); random sequences use registered claim/header names and one-element arrays.")
+more("C16", "The items labelled c carry the kid 'c+d/e'; after every operation look-ups of 'c-d_e', 'c%2Bd%2Fe', 'C+D/E', 'c' and 'c+d/e ' must find nothing.")
+more("C17", "Verify scenarios with correctly signed tokens whose exp/nbf are JSON reals (long expired).")
+more("C18", "Quick tier: 12 threads (more than a pool of 8).")
+more("C19", "A third of the cells verify the same token a second time on the same checker (what the callback did to the first jwt_t must not reach the second verification).")
+more("C20", "Library-as-oracle stage: 228 hand-made HS tokens (27 header serialisations incl. white space, member order, escapes, extra members, invalid shapes x 15 payload serialisations, plus broken signatures) get jwt_checker_verify's verdict from a helper; jwt-verify must exit 0 exactly for those, as argument, on stdin and as one list.")
